@@ -158,7 +158,7 @@ Lemma calls_ip_call_salt_ok n inner msg sender f l a salt :
   ok = true ->
   calls P 3 "InstantiateProxy::call" [ip_val (code_id_val n (app_val inner)) f l a (some salt) msg; sender]
     (CVal (let d := did "extern::execute" [inner; sender; inst2_msg n msg f l a salt] payload in
-           if ok2 then VCon "Ok" [proxy_val (VCon "Into::into" [d]) (app_val inner)]
+           if ok2 then VCon "Ok" [proxy_val d (app_val inner)]
            else VCon "Err" [VCon "Into::into" [VCon "StdError::GenericErr" [VStr "parse error"]]])).
 Proof. intros ->. destruct ok2; run. Qed.
 
